@@ -104,7 +104,7 @@ def run(chk, model_ok=True):
             chk.violation("oracle", what, {"kind": "oracle", "lines": [detail], "expected": what})
 
     # 1. single values through SnmpValue::from_ber (implementation vs ground truth vs model)
-    n_val = 3000 if quick else 80000
+    n_val = 12000 if quick else 640000
     truth = []
     lines = []
     for _ in range(n_val):
@@ -116,8 +116,8 @@ def run(chk, model_ok=True):
     st.add("corpus", streams.corpus_lines("C02"))
     n_corpus = len(st.lines)
     st.add("value-ground-truth", lines)
-    st.add("value", gens.lines_value(rng, 1500 if quick else 40000))
-    st.add("real", gens.lines_real(rng, 400 if quick else 10000))
+    st.add("value", gens.lines_value(rng, 6000 if quick else 320000))
+    st.add("real", gens.lines_real(rng, 1600 if quick else 80000))
     st.run()
     kinds_seen = {}
     for (val, kind, tlv, follower), ln, out in zip(truth, lines, st.impl[n_corpus:n_corpus + len(lines)]):
@@ -133,7 +133,7 @@ def run(chk, model_ok=True):
     st.diff("C02 values", known=known_diff)
     # 2. end to end: every API, every session kind, any position in the list
     peers = e2e.all_peers()
-    n_per = 40 if quick else 1200
+    n_per = 160 if quick else 9600
     n_e2e = 0
     hist = {}
     distinct = set()
@@ -222,7 +222,7 @@ def run(chk, model_ok=True):
     n_cli = 0
     for peer in [e2e.Peer("v2c"), e2e.Peer("v3", auth=2, priv=2, auth_kt="localized", priv_kt="localized")]:
         for mode in ("sync", "async"):
-            for _ in range(6 if quick else 150):
+            for _ in range(24 if quick else 1200):
                 tlv, val, kind = gen_val(rng, data_only=True)
                 name = values.gen_arcs(rng)
                 r = client_get(mode, peer, values.dotted(name), vb(rng, name, tlv))
